@@ -37,6 +37,8 @@ PALETTE_A = [
     G.entry("R", {"R": 0.0}, name="R0"),
     G.entry("R", {"R": 1e-12}, name="Rtiny"),
     G.entry("R", {"R": 1e15}, name="Rhuge"),
+    G.entry("R", {"R": 1e200}, name="R1e200"),     # products of two such magnitudes leave the double range, their reciprocals do not
+    G.entry("R", {"R": 1e-200}, name="R1e-200"),
     G.entry("R", {"R": math.inf}, name="Rinf", cdc_ok=False),
     G.entry("C", {"C": 2e-6}, name="C"),
     G.entry("L", {"L": 3e-4}, name="L"),
@@ -439,8 +441,8 @@ def run(ctx) -> None:
     thorough = ctx.tier == "thorough"
     setup()
     ctx.rule = ("every canonical series/parallel skeleton (alternating S/P, arity >= 2) with <= L leaves and the object-only skeletons "
-                "(single-child connections, same-kind nesting, empty series) x every filling from a 16-entry leaf palette (resistors incl. "
-                "0, 1e-12, 1e15 and +inf ohm, C, L, L=0, Q, W, Ws, three transmission-line containers, a harness element that is a short below "
+                "(single-child connections, same-kind nesting, empty series) x every filling from an 18-entry leaf palette (resistors incl. "
+                "0, 1e-200, 1e-12, 1e15, 1e200 and +inf ohm, C, L, L=0, Q, W, Ws, three transmission-line containers, a harness element that is a short below "
                 "2 Hz), L <= 3 quick; thorough: L <= 4 over 9 entries and L <= 5 over 5 entries; one instance of every registered class at "
                 "every leaf for L <= 2 (3); each circuit built from objects, from CDC text and with CircuitBuilder and evaluated on 6 "
                 "frequency vectors (lengths 1..31, ascending/descending/permuted, 1e-6..1e9 Hz) plus one frequency at a time; seed-selected "
